@@ -243,6 +243,42 @@ func (c *evalCtx) call(e *Expr) (tval, error) {
 			return tval{}, err
 		}
 		return tval{t: Eq(cur.t, old.t), ty: tBool}, nil
+	case "frameExcept": // frameExcept(d1, d2, ...): in the heaps the designators lie in, every cell of an object that existed at function entry is unchanged EXCEPT the designated ones (designators are evaluated at function entry)
+		if c.old == nil {
+			return tval{}, fmt.Errorf("frameExcept needs an old state")
+		}
+		byKey := map[string][]footprint{}
+		var order []string
+		for _, a := range e.Args {
+			fps, everything, err := fr.evalModifies([]string{a.String()}, c.names, c.old)
+			if err != nil {
+				return tval{}, err
+			}
+			if everything {
+				return tval{}, fmt.Errorf("frameExcept(*) is meaningless")
+			}
+			for _, fp := range fps {
+				if _, ok := byKey[fp.key]; !ok {
+					order = append(order, fp.key)
+				}
+				byKey[fp.key] = append(byKey[fp.key], fp)
+			}
+		}
+		var conj []Term
+		for _, k := range order {
+			*c.nq++
+			vs := byKey[k][0].vs
+			l := Sym(fmt.Sprintf("l!x%d_%d", u.nsym, *c.nq), SLoc)
+			cur := Select(u.heap(c.cur, k, vs), l, vs)
+			old := Select(u.heap(c.old, k, vs), l, vs)
+			conds := []Term{Le(Obj(l), c.old.alloc)}
+			for _, fp := range byKey[k] {
+				conds = append(conds, Not(fp.cond(l)))
+			}
+			conj = append(conj, Forall([]Term{l}, Implies(And(conds...), Eq(cur, old)), []Term{cur}))
+		}
+		u.usesQuant = true
+		return tval{t: And(conj...), ty: tBool}, nil
 	case "frameOld": // frameOld(d1, d2, ...): in the heaps named by the designators, cells of objects that existed at function entry are unchanged
 		if c.old == nil {
 			return tval{}, fmt.Errorf("frameOld needs an old state")
